@@ -1,5 +1,5 @@
 (* C33 — --wrap.  wild: SymbolDb::apply_wrapped_symbol_overrides (libwild/src/symbol_db.rs) rewrites the global
-   name table once, sequentially over the --wrap list, before undefined references are resolved through it.
+   name table once (all look-ups first, then the overrides, in --wrap order), before undefined references are resolved through it.
    GNU ld: bfd_wrapped_link_hash_lookup — a one-step renaming applied when an UNDEFINED reference is looked up.
    Names: a base name, or __wrap_ / __real_ in front of a name. *)
 From Coq Require Import NArith List Bool.
@@ -19,12 +19,19 @@ Definition table := name -> option N.
 Definition upd (t : table) (k : name) (v : N) : table := fun n => if name_eqb n k then Some v else t n.
 
 (* ---- wild ---- *)
-Definition wild_step (t : table) (s : name) : table :=
+(* every --wrap name is looked up in the table as it was before any override (t0), then the overrides are applied *)
+Definition wild_step (t0 : table) (acc : table) (s : name) : table :=
+  let acc1 := match t0 (Wrap s) with Some w => upd acc s w | None => acc end in
+  match t0 s with Some o => upd acc1 (Real s) o | None => acc1 end.
+Definition wild_table (t : table) (ws : list name) : table := fold_left (wild_step t) ws t.
+Definition wild_resolve (t : table) (ws : list name) (n : name) : option N := wild_table t ws n.
+
+(* the pinned tree: look-ups and overrides interleaved, so a repeated name sees its own earlier override *)
+Definition wild_step_pinned (t : table) (s : name) : table :=
   let orig := t s in
   let t1 := match t (Wrap s) with Some w => upd t s w | None => t end in
   match orig with Some o => upd t1 (Real s) o | None => t1 end.
-Definition wild_table (t : table) (ws : list name) : table := fold_left wild_step ws t.
-Definition wild_resolve (t : table) (ws : list name) (n : name) : option N := wild_table t ws n.
+Definition wild_resolve_pinned (t : table) (ws : list name) (n : name) : option N := fold_left wild_step_pinned ws t n.
 
 (* ---- GNU ld ---- *)
 Definition wrapped (ws : list name) (s : name) : bool := existsb (name_eqb s) ws.
